@@ -41,6 +41,8 @@
 package decoder
 
 import (
+	"strings"
+
 	"github.com/cloudwego/hertz/internal/bytesconv"
 	"github.com/cloudwego/hertz/pkg/protocol"
 	"github.com/cloudwego/hertz/pkg/route/param"
@@ -123,7 +125,8 @@ func cookieSlice(req *protocol.Request, params param.Params, key string, default
 
 func headerSlice(req *protocol.Request, params param.Params, key string, defaultValue ...string) (ret []string) {
 	req.Header.VisitAll(func(headerKey, value []byte) {
-		if bytesconv.B2s(headerKey) == key {
+		// header names are case-insensitive (the scalar getter goes through Header.Peek)
+		if strings.EqualFold(bytesconv.B2s(headerKey), key) {
 			ret = append(ret, string(value))
 		}
 	})
